@@ -240,25 +240,26 @@ def le_oracle_validation(sa, sb, T=3, V=1):
 
 
 def jobs(tier):
-    maxlen = 3 if tier == 'quick' else 4
+    maxlen = 3 if tier == 'quick' else 5
     S = list(shapes(maxlen))
     out = []
     for sa, sb in itertools.product(S, S):
         if sa[0] == sb[0] and sa[2] == sb[2]:
             out.append({'id': f'pair{sa}{sb}', 'harness': 'vk.kernels.c08:pair', 'params': {'sa': sa, 'sb': sb}})
-    S3 = list(shapes(3))
+    S3 = list(shapes(3 if tier == 'quick' else 4))
     for sa, sb, sc in itertools.product(S3, S3, S3):
         if sa[0] == sb[0] == sc[0] and sa[2] == sb[2] == sc[2]:
             out.append({'id': f'triple{sa}{sb}{sc}', 'harness': 'vk.kernels.c08:triple',
                         'params': {'sa': sa, 'sb': sb, 'sc': sc}})
     for sd in S:
         out.append({'id': f'addtime{sd}', 'harness': 'vk.kernels.c08:addtime', 'params': {'sd': sd}})
-    SA = list(shapes(2 if tier == 'quick' else 3))
+    SA = list(shapes(2 if tier == 'quick' else 4))
     for sa, sb, sc in itertools.product(SA, SA, SA):
         if sa[2] == sb[0] and sb[2] == sc[0]:
             out.append({'id': f'assoc{sa}{sb}{sc}', 'harness': 'vk.kernels.c08:assoc',
                         'params': {'sa': sa, 'sb': sb, 'sc': sc}})
-    for sa, sb in itertools.product(S3, S3):
+    SV = list(shapes(3))
+    for sa, sb in itertools.product(SV, SV):
         if sa[0] == sb[0] and sa[2] == sb[2]:
             out.append({'id': f'leval{sa}{sb}', 'harness': 'vk.kernels.c08:le_oracle_validation',
                         'params': {'sa': sa, 'sb': sb}})
